@@ -26,6 +26,14 @@ LOOPS = {
     'interned_recreate': 'let s = 0;\nfor i in %(n)d.times() { let a = "same" + "-" + "text"; let b = "same-${"text"}"; if a == b { s = s + 1; } }\nprint(s > 0);\n',
     'kept_window': 'let win = [nil, nil, nil, nil, nil, nil, nil, nil];\nfor i in %(n)d.times() { win[i - (i / 8).floor() * 8] = ["live", i, {"k": i}]; }\nprint(win.len());\n',
     'assert_failures': 'let n = 0;\nfor i in %(n)d.times() { try { assertEq(i, "x${i}"); } catch e: Error { n = n + 1; } }\nprint(n);\n',
+    'channel_ring': 'let c = chan(3);\nfn box(v) { return [v, "p${v}"]; }\nlet s = 0;\nc <- box(0); c <- box(1);\nfor i in %(n)d.times() { c <- box(i + 2); let junk = ["j${i}", [i]]; let r = <- c; s = s + r[0] - i; }\nprint(s, (<- c)[1].len() > 0, (<- c)[0] > 0);\n',
+    'channel_ring_cap2': 'let c = chan(2);\nlet s = 0;\nc <- [0];\nfor i in %(n)d.times() { c <- ["v${i}", i]; let junk = "j${i}" + "k"; let r = <- c; s = s + r.len(); }\nprint(s > 0);\n',
+    'sleeping_fiber_stack': 'let go = chan();\nlet back = chan();\nfn w(n) { let mine = ["only", "on", "this", "stack"]; let t = (mine, "tuple"); for i in n.times() { let fresh = ["f${i}", mine]; <- go; back <- mine.len() + t.len() + fresh[1].len() - 4; } }\nlaunch w(%(n)d);\nlet s = 0;\nfor i in %(n)d.times() { let junk = []; for j in 6.times() { junk.push("g${j}"); } go <- 1; s = s + (<- back) - 6; }\nprint(s);\n',
+    'error_held_by_fiber': 'fn deep(n) { if n == 0 { raise Error("deep ${n}", Error("inner")); } return deep(n - 1); }\nlet s = 0;\nfor i in %(n)d.times() { try { deep(5); } catch e: Error { let junk = ["a${i}", "b${i}"]; s = s + e.backTrace.len() + e.inner.message.len() - 11; } }\nprint(s);\n',
+    'iterator_holds_closure': 'let s = 0;\nfor i in %(n)d.times() { let k = [i, i + 1]; let it = [1, 2, 3].iter().map(|x| x + k[0]).filter(|x| x >= k[0]); let junk = "z${i}"; s = s + it.list().len() - 3; }\nprint(s);\n',
+    'bound_method_holds_receiver': 'class H { init(v) { self.v = [v, "s${v}"]; } get() { self.v[0] } }\nlet s = 0;\nfor i in %(n)d.times() { let m = H(i).get; let junk = ["q${i}"]; s = s + m() - i; }\nprint(s);\n',
+    'map_keys_values_only': 'let m = {};\nlet s = 0;\nfor i in %(n)d.times() { m["k${i - (i / 4).floor() * 4}"] = ["val", i]; let junk = "w${i}"; s = s + m.len(); }\nprint(s > 0, m["k0"][0]);\n',
+    'module_snapshot': 'class Z { init() { self.items = []; } add(x) { self.items.push(x); return self.items.len(); } }\nlet z = Z();\nlet s = 0;\nfor i in %(n)d.times() { if z.items.len() > 6 { z.items.clear(); } s = s + z.add(["it${i}"]) - z.items.len(); }\nprint(s);\n',
 }
 
 
